@@ -2,7 +2,7 @@
 from pyvc.contracts import contract
 
 M = "statham.schema.validation.numeric:"
-NUMREQ = "is_num(value) and is_dict(self.params) and has(self.params, '{k}') and is_num(self.params['{k}'])"
+NUMREQ = "is_num(value) and dict_wf(self.params) and has(self.params, '{k}') and is_num(self.params['{k}'])"
 
 contract(M + "Minimum._validate", requires=NUMREQ.format(k="minimum"),
          raises=[("ValidationError", "num(value) < num(self.params['minimum'])")],
